@@ -651,11 +651,20 @@ def run_sse(case):
         n_event[0] += 1
         return head + b"id: %d\ndata: tick %d\n\n" % (n_event[0], n_event[0])
 
+    srv0 = None
     try:
         srv.up()
+        if case.get("via_redirect"):
+            # the stream is reached through a redirect from another server: the client that follows it must stay as
+            # reconnectable (and keep the timeout) it was created with
+            ha0 = _loop_addr()
+            srv0 = LoopServer(ha0)
+            srv0.up()
+            classes.add("sse-reached-through-redirect")
         reconn = case.get("reconn", True)
         classes.add("sse-reconnectable" if reconn else "sse-not-reconnectable")
-        patron = hclienting.Patron(store=store, hostname=ha[0], port=ha[1], timeout=T, reconnectable=reconn)
+        first = ha0 if srv0 is not None else ha
+        patron = hclienting.Patron(store=store, hostname=first[0], port=first[1], timeout=T, reconnectable=reconn)
         patron.open()
         patron.request(method="GET", path="/stream", headers={"Accept": "text/event-stream"})
         t = 0.0
@@ -663,6 +672,20 @@ def run_sse(case):
 
         def service_round():
             patron.serviceAll()
+            if srv0 is not None:
+                srv0.accept_pending()
+                for cs in list(srv0.conns):
+                    try:
+                        data = cs.recv(65536)
+                    except OSError:
+                        data = b""
+                    if data and id(cs) not in served:
+                        served.add(id(cs))
+                        try:
+                            cs.send(b"HTTP/1.1 302 Found\r\nLocation: http://%s:%d/stream\r\nContent-Length: 0\r\n\r\n"
+                                    % (ha[0].encode("ascii"), ha[1]))
+                        except OSError:
+                            pass
             srv.accept_pending()
             for cs in list(srv.conns):
                 try:
@@ -683,7 +706,7 @@ def run_sse(case):
             return bool(c.connected and not c.cutoff and srv.conns)
 
         # establish the stream
-        for _ in range(40):
+        for _ in range(40 if srv0 is None else 90):
             store.changeStamp(t)
             service_round()
             if live() and patron.respondent.evented and patron.events:
@@ -765,6 +788,8 @@ def run_sse(case):
         except Exception:   # noqa: BLE001
             pass
         srv.close()
+        if srv0 is not None:
+            srv0.close()
 
 
 def run_case(case):
@@ -820,6 +845,7 @@ def sse_cases():
         "cuts": st.lists(st.sampled_from(["fin", "fin", "rst"]), min_size=2, max_size=3),
         "gap": st.integers(0, 3),
         "reconn": st.sampled_from([True, True, False]),
+        "via_redirect": st.sampled_from([False, False, True]),
     })
 
 
